@@ -31,6 +31,16 @@ func compactDatesAsSeconds(v *rh.Value, seen map[*rh.Value]bool) bool {
 
 // wireCheck performs the C02 check for one value.
 func wireCheck(c *core.Ctx, val interface{}, desc, shape string, choices []int) string {
+	out := wireCheckNames(c, val, desc, shape, choices, false)
+	if out != "ok" {
+		return out
+	}
+	// the same value written without a name map (Go type names as class names, untyped lists and maps):
+	// what is written must not depend on what the process wrote before under other names
+	return wireCheckNames(c, val, desc+" (nil name map)", shape+" nil-names", choices, true)
+}
+
+func wireCheckNames(c *core.Ctx, val interface{}, desc, shape string, choices []int, nilNames bool) string {
 	rep := func(stage, kind, msg, detail string) string {
 		c.Report(&core.Violation{Stage: stage, Kind: kind, Shape: shape, Message: msgClass(msg), Case: desc, Detail: detail, Choices: choices})
 		return stage + "/" + kind
@@ -38,6 +48,9 @@ func wireCheck(c *core.Ctx, val interface{}, desc, shape string, choices []int) 
 	_, nm, p := Maps(val)
 	if p != "" {
 		return "skip:maps-panic" // C16's concern
+	}
+	if nilNames {
+		nm = nil
 	}
 	enc := Encode(val, nm)
 	if !enc.OK() {
